@@ -22,12 +22,12 @@ FUNCTIONS = ["ak.ghist.ReposCollection.__init__", "ak.ghist.ReposCollection.make
              "ak.ghist.ProjectRepo.get_components_versions", "ak.ghist.RGraph._mk_rcommits", "ak.ghist.RGraph._read_branch"]
 BOUNDS = {
     "quick": {"(a) graphs": "ALL 4096 dependency graphs over 4 repositories (and all over <= 3), repository ids in every alphabetical role",
-              "(b) histories": "component: linear, 2-4 builds, every subset matching; parent: linear 1-4 commits or release + master over 4 commits; every non-decreasing pin assignment naming existing builds; "
+              "(b) histories": "component: linear 2-4 builds or fork+merge / side-line shapes (containment = reachability), every subset matching; parent: linear 1-4 commits or release + master over 4 commits; every non-decreasing pin assignment naming existing builds; "
                                "every subset of parent build tags; parent commits with / without own matching message"},
 }
 BOUNDS["thorough"] = dict(BOUNDS["quick"], **{"(b) histories": BOUNDS["quick"]["(b) histories"].replace("2-4 builds", "2-5 builds").replace("1-4 commits", "1-5 commits")})
 OUTSIDE = ["merges inside the parent history", "more than 2 repositories in part (b)", "pins naming non-existent builds", "commit times outside the cut-off windows (all stub commits within one day)",
-           "component with several branches"]
+           "component with several release branches"]
 STUBS = ["in-memory git repositories (as C06) with a DEPENDS file per parent commit read by a ProjectRepo subclass defined in the harness"]
 ASSUMPTIONS = ["'contains' = pinned build number >= the component build's number (component history is linear with increasing numbers)"]
 
@@ -132,16 +132,26 @@ def _mk_parent_class():
     return ParentRepo
 
 
-def run_component_case(m: int, cmatch: Set[int], pshape_name: str, pins: Dict[int, int], ptags: Set[int], pmatch: Set[int]) -> None:
-    """component: commits 1..m, commit i carries build 2000+i; pins[c] = component build index (1..m) pinned by parent commit c"""
+COMPONENT_SHAPES = {
+    "fork-merge": {1: [], 2: [1], 3: [1], 4: [2, 3]},
+    "fork-merge-swapped": {1: [], 2: [1], 3: [1], 4: [3, 2]},
+    "side-line": {1: [], 2: [1], 3: [2], 4: [1], 5: [3, 4]},
+}
+
+
+def run_component_case(m, cmatch: Set[int], pshape_name: str, pins: Dict[int, int], ptags: Set[int], pmatch: Set[int]) -> None:
+    """component: `m` = number of commits of a linear history, or the name of a component shape; commit i carries build 2000+i;
+    pins[c] = component commit pinned by parent commit c; 'contains' = reachability in the component history"""
     import ak.ghist as G
-    cshape = {i: ([i - 1] if i > 1 else []) for i in range(1, m + 1)}
-    comp = StubRepo("lib", cshape, {c: "BUG-1 fix" for c in cmatch}, {c: f"build_{2000 + c}_release_7_1_success" for c in cshape}, {"master": m})
+    cshape = COMPONENT_SHAPES[m] if isinstance(m, str) else {i: ([i - 1] if i > 1 else []) for i in range(1, m + 1)}
+    top = max(cshape)
+    comp = StubRepo("lib", cshape, {c: "BUG-1 fix" for c in cmatch}, {c: f"build_{2000 + c}_release_7_1_success" for c in cshape}, {"master": top})
+    creach = {c: reach(cshape, c) for c in cshape}
     pshape, pheads = PARENT_SHAPES[pshape_name]
     files = {c: {"DEPENDS": json.dumps({"lib": f"7.1.{2000 + pins[c]}"})} for c in pshape}
     parent = StubRepo("app", pshape, {c: "BUG-1 app" for c in pmatch}, {c: f"build_{300 + c}_release_1_0_success" for c in ptags}, pheads, files=files)
     ParentRepo = _mk_parent_class()
-    what = (f"component builds 2001..{2000 + m} matching {sorted(cmatch)}; parent {pshape_name} pins {pins} tags {sorted(ptags)} own matching {sorted(pmatch)}")
+    what = (f"component {m!r} matching {sorted(cmatch)}; parent {pshape_name} pins {pins} tags {sorted(ptags)} own matching {sorted(pmatch)}")
     try:
         coll = G.ReposCollection({"app": ParentRepo("app", parent, "origin"), "lib": G.ProjectRepo("lib", comp, "origin")})
         if coll.sorted_repos != ["lib", "app"]:
@@ -152,14 +162,16 @@ def run_component_case(m: int, cmatch: Set[int], pshape_name: str, pins: Dict[in
     except Exception as e:  # noqa
         raise Violation(f"raises :: {what}: {type(e).__name__}: {e}")
     lib_rg, app_rg = data["lib"], data["app"]
-    # report-related component builds: here every component commit is a build; the report-related ones are the matching commits
+    # report-related component builds: every component commit is a build; the report-related ones are the matching commits
+    # (a merge of two report-related lines is reported as a build as well)
     lib_builds = {}
     for rb in lib_rg.branches:
         for rbuild in rb.get_rbuilds_list():
             if rbuild.rcommit is not None:
                 lib_builds[rbuild.rcommit.commit.cid] = rbuild
-    if set(lib_builds) != set(cmatch):
-        raise Violation(f"component-builds :: {what}: report-related component builds at commits {sorted(lib_builds)}, expected {sorted(cmatch)}")
+    extra = set(lib_builds) - set(cmatch)
+    if not set(cmatch) <= set(lib_builds) or any(len(cshape[c]) < 2 for c in extra):
+        raise Violation(f"component-builds :: {what}: report-related component builds at commits {sorted(lib_builds)}, expected {sorted(cmatch)} (+ merges)")
     order = sorted(pheads, key=lambda b: (b == "master", b))
     R = {b: reach(pshape, pheads[b]) for b in order}
     app_by_name = {rb.branch_name: rb for rb in app_rg.branches}
@@ -171,7 +183,7 @@ def run_component_case(m: int, cmatch: Set[int], pshape_name: str, pins: Dict[in
         path_builds = sorted(c for c in R[b] if (c in ptags or c == pheads[b]))
         for cb in sorted(cmatch):
             # first build of this branch (in ancestor order = increasing id on these shapes) whose pin contains the component build
-            first = next((c for c in path_builds if pins[c] >= cb), None)
+            first = next((c for c in path_builds if cb in creach[pins[c]]), None)
             got = [str(x[2]) for x in lib_builds[cb].included_at if x[0] == "app" and str(x[1]) == b]
             if first is None or first in lower:
                 want: List[str] = []
@@ -188,27 +200,38 @@ def run_component_case(m: int, cmatch: Set[int], pshape_name: str, pins: Dict[in
             for rbuild in rb.get_rbuilds_list():
                 if rbuild.rcommit is not None:
                     reported.add(rbuild.rcommit.commit.cid)
-        prev_pin = 0
+        shipped: Set[int] = set()
         for c in path_builds:
-            crosses = any(prev_pin < cb <= pins[c] for cb in cmatch)
+            crosses = any(cb in creach[pins[c]] and cb not in shipped for cb in cmatch)
             if crosses and c in own_builds and c not in reported:
-                raise Violation(f"bump-not-reported :: {what}: parent build at commit {c} of branch {b} moves the pin from {prev_pin} to {pins[c]} across a report-related component build but is not reported")
-            prev_pin = max(prev_pin, pins[c])
+                raise Violation(f"bump-not-reported :: {what}: parent build at commit {c} of branch {b} newly ships a report-related component build (pin {pins[c]}) but is not reported")
+            shipped |= creach[pins[c]]
 
 
 def _pin_assignments(pshape, m):
+    """every assignment of component commits to parent commits in which the pinned version never loses history along a path"""
     ids = sorted(pshape)
-    for combo in itertools.product(range(1, m + 1), repeat=len(ids)):
+    cshape = COMPONENT_SHAPES[m] if isinstance(m, str) else {i: ([i - 1] if i > 1 else []) for i in range(1, m + 1)}
+    creach = {c: reach(cshape, c) for c in cshape}
+    for combo in itertools.product(sorted(cshape), repeat=len(ids)):
         pins = dict(zip(ids, combo))
-        if all(pins[p] <= pins[c] for c in ids for p in pshape[c]):
+        if all(pins[p] in creach[pins[c]] for c in ids for p in pshape[c]):
             yield pins
 
 
 def h_component(m: int, cm: int, shard=None) -> None:
-    reject_unless(shard["m"][0] <= m <= shard["m"][1] and 1 <= cm < 2 ** 5)
-    reject_unless(cm < 2 ** m)
+    if "component" in shard:
+        reject_unless(m == 0)
+        ncommits = len(COMPONENT_SHAPES[shard["component"]])
+    else:
+        reject_unless(shard["m"][0] <= m <= shard["m"][1])
+        ncommits = m
+    reject_unless(1 <= cm < 2 ** 5 and cm < 2 ** ncommits)
     m, cm = realize(m), realize(cm)
-    cmatch = {i + 1 for i in range(m) if (cm >> i) & 1}
+    ncommits = len(COMPONENT_SHAPES[shard["component"]]) if "component" in shard else m
+    cmatch = {i + 1 for i in range(ncommits) if (cm >> i) & 1}
+    if "component" in shard:
+        m = shard["component"]
     pshape, pheads = PARENT_SHAPES[shard["parent"]]
     with concrete():
         ids = sorted(pshape)
@@ -222,11 +245,11 @@ def replay_h_component(record):
     import ast
     import re
     msg = record.get("message") or ""
-    m = re.search(r"component builds 2001\.\.(\d+) matching (\[.*?\]); parent (\S+) pins (\{.*?\}) tags (\[.*?\]) own matching (\[.*?\])", msg)
+    m = re.search(r"component (\S+) matching (\[.*?\]); parent (\S+) pins (\{.*?\}) tags (\[.*?\]) own matching (\[.*?\])", msg)
     if not m:
         return "cannot parse the failing case"
     try:
-        run_component_case(int(m.group(1)) - 2000, set(ast.literal_eval(m.group(2))), m.group(3), ast.literal_eval(m.group(4)), set(ast.literal_eval(m.group(5))), set(ast.literal_eval(m.group(6))))
+        run_component_case(ast.literal_eval(m.group(1)), set(ast.literal_eval(m.group(2))), m.group(3), ast.literal_eval(m.group(4)), set(ast.literal_eval(m.group(5))), set(ast.literal_eval(m.group(6))))
     except Violation as e:
         return str(e)
     return None
@@ -241,4 +264,7 @@ def jobs(tier: str) -> List[Job]:
     for p in parents:
         js.append(Job(__name__, "h_component", shard={"parent": p, "m": [2, 3] if (not t and p in ("linear4", "release+master2")) else ([2, 4] if not t else [2, 5])},
                       budget_s=3000 if t else 110, label=f"component:{p}", must_exhaust=not t))
+    for comp in COMPONENT_SHAPES:
+        for p in (["linear2", "linear3"] if not t else ["linear2", "linear3", "linear4", "release+master"]):
+            js.append(Job(__name__, "h_component", shard={"parent": p, "component": comp}, budget_s=3000 if t else 110, label=f"component:{comp}:{p}", must_exhaust=not t))
     return js
